@@ -13,17 +13,15 @@ Ltac inv_ok :=
   end.
 
 (* side conditions of the Moreau theorem, on top of [wf]:
-   - classes without a proximal (Sum, InfimalConvolution, RightVectorMult, QuadraticForm) and the
-     sort-based l1-ball projection (LpNorm(inf) / IndicatorLpUnitBall(1), validated by the
-     correspondence and probes only) are excluded -- for the former the premise "both proximals exist"
-     is false anyway;
+   - classes without a proximal (Sum, InfimalConvolution, RightVectorMult, QuadraticForm) are
+     excluded -- the premise "both proximals exist" is false for them anyway;
    - a DefaultConvexConjugate node must not wrap a functional flagged linear (the flag of the
      default conjugate is then wrong: the conjugate of <b, .> is an indicator);
    - a reflection f(s .) with s < 0 must not sit on a functional whose conjugate is flagged linear
      (the library then builds a LeftScalarMult with a negative scalar, whose proximal raises). *)
 Fixpoint D (e : fxR) : Prop :=
   match e with
-  | FLp Pinf | FIndBall P1 | FSum _ _ | FInfConv _ _ | FRightVec _ _ | FQuadS _ _ _ => False
+  | FSum _ _ | FInfConv _ _ | FRightVec _ _ | FQuadS _ _ _ => False
   | FLp _ | FIndBall _ | FL2Sq | FConst _ | FIndZero _ | FHuber _ => True
   | FLeft _ f | FScalarSum f _ | FTransl f _ | FQuadPert f _ _ _ | FBreg f => D f
   | FRight s f => (s < 0 -> forall w f', @cconj R _ w f = Ok f' -> is_linear f' = false) /\ D f
